@@ -106,7 +106,7 @@ def _gradients_self_contained(doc, out):
     return [("gradient-form", v[0])] if v else []
 
 
-_mk("C02", "render.structural", ("structural",), _render_oracle(), "composited colour of source vs converted document at grid points outside a 0.4% epsilon band of every edge (independent reference evaluator)", pinned=("two_nested_svgs_clip_ids",))
+_mk("C02", "render.structural", ("structural",), _render_oracle(), "composited colour of source vs converted document at grid points outside a 0.4% epsilon band of every edge (independent reference evaluator)", pinned=("two_nested_svgs_clip_ids", "use_of_a_template_inside_a_hidden_group"))
 _mk("C03", "render.clipped", ("clipped",), _render_oracle(extra=_no_clip_left), "as C02, with clip membership; plus: no clip-path / clipPath left in the output", pinned=("use_clip_target_transform", "clip_rule_on_the_clippath"))
 _mk("C05", "render.cascade", ("cascade",), _render_oracle(), "composited colour (source-over, group opacity) of source vs converted document at grid points",
     pinned=("root_opacity", "explicit_fill_equal_to_defs_context", "opacity_rounded_with_coordinates"))
